@@ -41,6 +41,26 @@ PROPS["C11"] = {
 }
 
 
+PROPS["C17"] = {
+    "level": "exploration",
+    "profiles": ["dev", "release"],
+    "workers": 8,
+    "engine": "E1 vh + hook (rusl feature verif-hooks)",
+    "technique": "model-based property testing (proptest histories against a two-FIFO reference model with a simulated kernel)",
+    "rule": ("Generated histories of <=200 steps interleaving application calls {get_next_sqe_slot+fill, flush_submission_queue, "
+             "get_next_cqe} with simulated-kernel steps {consume k submissions through sq_array, post k completions}, SQ sizes "
+             "1/2/4/8, CQ = n or 2n, SQE128/CQE32/SQPOLL variants, all four free-running counters starting at 0, 1, 2^31+-k, "
+             "u32::MAX-k (k <= 2*entries+2) or random. Oracle: two FIFO queues + slot-ownership map, checked after every step "
+             "(sequence stamped in user_data seen by the kernel in order without gap/duplicate; slot pointer and None<=>full; "
+             "flush count and published tail; completion content, slot, head advanced by exactly one; None<=>empty). "
+             "Non-trivial = a counter crossed 2^32 or 2^31, or the completion ring was full at some step; distinct by hash of the case."),
+    "assumptions": ["the simulated kernel follows the io_uring ABI (indices are free-running u32, masked on use)",
+                    "call granularity: ring memory is not changed by the kernel side during an application call",
+                    "the IoUring value is built through the verif-hooks constructor, not by io_uring_setup"],
+    "required_classes": ["ring:counter-crossed-2^32", "ring:counter-crossed-2^31", "ring:cq-full", "ring:sq-full-none", "ring:sqe128", "ring:cqe32", "ring:ring-size-1"],
+}
+
+
 # fragments: lib/props.d/<id>.py each define ID and CFG
 import glob as _glob
 import importlib.util as _ilu
